@@ -74,6 +74,9 @@ def run(rep, tier):
     rep.rule("R5", "freeze() sorts dict tables by offset and calls the encoder for dict and list inputs")
     rep.rule("R6", "negative line deltas are dropped only by classes that serve no version >= 3.6")
     rep.rule("R7", "a class that serves a version >= 3.6 (signed line byte) emits no constant line chunk above 127")
+    rep.rule("R8", "per table entry the emitted address bytes add up to the advance of the previous-offset tracker and the line bytes to that of the previous-line "
+                   "tracker: emitted + residual is invariant over every straight-line segment and one iteration of every chunking loop; a path that skips an entry "
+                   "leaves the trackers alone")
     repo = get_repo()
     n_enc = 0
     for mod, cname in CLASSES:
@@ -219,5 +222,271 @@ def run(rep, tier):
                derived="dropped" if drops_negative else "kept",
                msg="%s serves %d.%d-%d.%d, where line tables have signed deltas, but the encoder silently drops entries whose line number decreases" % (cname, lo[0], lo[1], hi[0], hi[1]))
     rep.floor("line-table encoders analysed", n_enc, 5)
+    from ..tables import tables
+    T = tables()
+    nseg = 0
+    for mod, cname in CLASSES:
+        if cname == "Code310":
+            continue  # a different format (3.10 line table); its encoder has recorded findings of its own
+        cq = "%s.%s" % (mod, cname)
+        eq = repo.method(cq, "encode_lineno_tab")
+        em, efn = repo.functions[eq]
+        nseg += conservation_rule(rep, T, mod, cname, "%s (encoder of %s)" % (eq, cname), repo.where(em, efn))
+    rep.floor("conservation checks (segments and loop iterations)", nseg, 12)
     rep.assumptions = ["the class -> served-versions table SERVES in rules/c19.py mirrors codeType2Portable's selection (decided by C01/C16)",
                        "the round trip itself and the 3.10 range semantics of Code310's encoder are value properties and are not decided"]
+
+
+# ====================================================================== R8: conservation (specialiser based)
+class Unparsed(Exception):
+    pass
+
+
+def _bytes_of(x):
+    """the byte terms appended by one piece, as a list of items: term | ('rep', [items], count)"""
+    from ..sve import Op, Sym
+    if isinstance(x, (bytes, bytearray)):
+        return list(x)
+    if isinstance(x, str):
+        return [ord(c) for c in x]
+    if isinstance(x, Op) and x.op == "bytesof":
+        return list(x.args)
+    if isinstance(x, Op) and x.op == "call" and x.args and x.args[0] in ("chr", "unichr") and len(x.args) == 2:
+        return [x.args[1]]
+    if isinstance(x, Op) and x.op == "call" and x.args and x.args[0] in ("bytearray", "bytes") and len(x.args) == 2:
+        return _bytes_of(x.args[1])
+    if isinstance(x, (list, tuple)):
+        return list(x)
+    if isinstance(x, Op) and x.op == "Mult" and len(x.args) == 2:
+        a, b = x.args
+        for seq, k in ((a, b), (b, a)):
+            try:
+                inner = _bytes_of(seq)
+            except Unparsed:
+                continue
+            return [("rep", inner, k)]
+    if isinstance(x, Op) and x.op == "concat":
+        out = []
+        for a in x.args:
+            out.extend(_bytes_of(a))
+        return out
+    raise Unparsed("piece %r" % (x,))
+
+
+def _pieces(term, base):
+    """byte items appended to the accumulator `base` (a Sym) in `term`"""
+    from ..sve import Op
+    if repr(term) == repr(base):
+        return []
+    if isinstance(term, Op) and term.op == "concat":
+        head, rest = term.args[0], term.args[1:]
+        out = _pieces(head, base)
+        for r in rest:
+            out.extend(_bytes_of(r))
+        return out
+    raise Unparsed("accumulator %r is not %r plus appended pieces" % (term, base))
+
+
+def _sums(items):
+    """(sum of even-position bytes, sum of odd-position bytes) as terms"""
+    from ..sve import add, mul
+    tot = [0, 0]
+    pos = 0
+    for it in items:
+        if isinstance(it, tuple) and it and it[0] == "rep":
+            inner, k = it[1], it[2]
+            if len(inner) % 2 or any(isinstance(x, tuple) for x in inner):
+                raise Unparsed("repetition of an odd-length piece")
+            sa, sl = 0, 0
+            for i, x in enumerate(inner):
+                if (pos + i) % 2 == 0:
+                    sa = add(sa, x)
+                else:
+                    sl = add(sl, x)
+            tot[0] = add(tot[0], mul(sa, k))
+            tot[1] = add(tot[1], mul(sl, k))
+        else:
+            tot[pos % 2] = add(tot[pos % 2], it)
+            pos += 1
+    return tot[0], tot[1]
+
+
+def _cases(term):
+    """[(condition list, term)] of a possibly guarded accumulator"""
+    from ..sve import Guard
+    if isinstance(term, Guard):
+        return [([term.cond] + c, t) for c, t in _cases(term.a)] + [([("not", term.cond)] + c, t) for c, t in _cases(term.b)]
+    return [([], term)]
+
+
+def _resolve(t, cond):
+    """specialise a term to a case: guards whose condition is decided by `cond` are replaced by the chosen branch"""
+    from ..sve import Guard, Lin, add, mul
+    true = {repr(c) for c in cond if not isinstance(c, tuple)}
+    false = {repr(c[1]) for c in cond if isinstance(c, tuple)}
+    if isinstance(t, Guard):
+        r = repr(t.cond)
+        if r in true:
+            return _resolve(t.a, cond)
+        if r in false:
+            return _resolve(t.b, cond)
+        return t
+    if isinstance(t, Lin):
+        out = t.const
+        for a, c in t.terms.items():
+            out = add(out, mul(_resolve(a, cond), c))
+        return out
+    return t
+
+
+def _zero(t):
+    return (isinstance(t, int) and not isinstance(t, bool) and t == 0) or repr(t) == "0"
+
+
+def conservation_rule(rep, T, mod, cname, construct, where):
+    """R8.  Per table entry the address bytes emitted add up to the advance of the previous-offset tracker and the line bytes to
+    the advance of the previous-line tracker.  Decided as an invariant: emitted + residual is unchanged by every straight-line
+    segment and by one iteration of every chunking loop (terms from the specialiser's one-iteration summaries)."""
+    from ..fold import ClassRef, FuncRef, Instance
+    from ..sve import Cont, Fall, Op, Spec, Sym, add, leaves, show
+    F = T.F
+    C = F.load(mod).ns.get(cname)
+    f = C.lookup("encode_lineno_tab") if isinstance(C, ClassRef) else None
+    if not isinstance(f, FuncRef):
+        raise AnalysisError("anchor vanished: %s.%s.encode_lineno_tab" % (mod, cname))
+    me = Instance(C)
+    me.attrs.update(co_lnotab=Sym("table", "list"), co_linetable=Sym("table", "list"), co_firstlineno=Sym("first", "int"))
+    sp = Spec(F)
+    sp.run(f, [me])
+    outer = [e.args[3] for e in sp.effects if e.kind == "loop"]
+    if len(outer) != 1:
+        raise AnalysisError("%s: expected one loop over the table, found %d" % (construct, len(outer)))
+    L0 = outer[0]
+    inner = [e.args[3] for e in L0.effects if e.kind == "loop"]
+    elem = Sym(L0.tag + ":elem")
+    item0, item1 = repr(Op("item", elem, 0)), repr(Op("item", elem, 1))
+    lv = [(g, l) for g, l in leaves(L0.out) if isinstance(l, (Fall, Cont))]
+    if not lv:
+        raise AnalysisError("%s: the table loop has no continuing path" % construct)
+
+    def head(n):
+        return Sym("%s:%s" % (L0.tag, n))
+    problems = []
+    nchecks = 0
+    for g, l in lv:
+        env = l.env
+        accs = [n for n, v in env.items() if isinstance(n, str) and not n.startswith("__") and ("concat" in show(v) or "co_l" in n) and n in L0.pre and
+                isinstance(L0.pre[n], (str, bytes, bytearray))]
+        if len(accs) != 1:
+            raise AnalysisError("%s: accumulator not identified (%s)" % (construct, accs))
+        acc = accs[0]
+        pa = [n for n, v in env.items() if isinstance(n, str) and n in L0.pre and repr(v) == item0 and n not in ("offset",)]
+        pl = [n for n, v in env.items() if isinstance(n, str) and n in L0.pre and repr(v) == item1]
+        path = " and ".join(show(x)[:60] for x in g if not (isinstance(x, Op) and x.op == "in-loop")) or "main path"
+        if not pa or not pl:
+            # a path that leaves the trackers alone must emit nothing (the entry is skipped as a whole)
+            for cond, term in _cases(env[acc]):
+                try:
+                    items = _pieces(term, head(acc)) if not inner or "after-" not in show(term) else None
+                except Unparsed:
+                    items = None
+                unchanged = all(repr(env.get(n)) == repr(head(n)) or repr(env.get(n)) == repr(L0.pre.get(n)) for n in L0.pre if isinstance(n, str) and n.startswith("prev"))
+                nchecks += 1
+                if items or not unchanged:
+                    problems.append(("skip-path", path, "emits %s while the trackers %s" % (items, "stay" if unchanged else "move")))
+            continue
+        Ta = add(env[pa[0]], head(pa[0]), -1)
+        Tl = add(env[pl[0]], head(pl[0]), -1)
+        # checkpoints: (base accumulator symbol, env at the end of the segment, accumulator term at the end of the segment)
+        segs = []
+        base = head(acc)
+        for ls in inner:
+            segs.append((base, ls.pre, ls.pre.get(acc), ls))
+            base = Sym("after-%s:%s" % (ls.tag, acc))
+        segs.append((base, env, env[acc], None))
+        ra = rl = None
+        try:
+            for si, (b, e_end_raw, acc_end, ls) in enumerate(segs):
+                for cond, term in _cases(acc_end):
+                    sa, sl = _sums(_pieces(term, b))
+                    nchecks += 1
+                    e_end = {n: _resolve(v, cond) for n, v in e_end_raw.items() if isinstance(n, str)}
+                    cdesc = (" when " + " and ".join(show(c)[:70] if not isinstance(c, tuple) else "not(%s)" % show(c[1])[:70] for c in cond)) if cond else ""
+                    if si == 0:
+                        # residuals: the variables that, with what was emitted so far, make up the entry's deltas
+                        cand_a = [n for n, v in e_end.items() if isinstance(n, str) and not n.startswith("__") and n != acc and _zero(add(add(sa, v), Ta, -1))]
+                        cand_l = [n for n, v in e_end.items() if isinstance(n, str) and not n.startswith("__") and n != acc and _zero(add(add(sl, v), Tl, -1))]
+                        cand_a = [n for n in cand_a if n not in (pa[0], "offset")] or cand_a
+                        cand_l = [n for n in cand_l if n not in (pl[0], "line_number")] or cand_l
+                        if ls is None:
+                            # no chunking loop at all: everything must have been emitted in this one segment
+                            if not _zero(add(sa, Ta, -1)):
+                                problems.append(("address", path + cdesc, "emitted address bytes sum to %s, the entry advances by %s" % (show(sa), show(Ta))))
+                            if not _zero(add(sl, Tl, -1)):
+                                problems.append(("line", path + cdesc, "emitted line bytes sum to %s, the entry advances by %s" % (show(sl), show(Tl))))
+                            continue
+                        if not cand_a:
+                            problems.append(("address", path + cdesc, "before the first chunking loop %s was emitted and no variable holds the rest of %s" % (show(sa), show(Ta))))
+                        if not cand_l:
+                            problems.append(("line", path + cdesc, "before the first chunking loop %s was emitted and no variable holds the rest of %s" % (show(sl), show(Tl))))
+                        if not cand_a or not cand_l:
+                            raise StopIteration
+                        ra, rl = cand_a[0], cand_l[0]
+                    else:
+                        prev_ls = segs[si - 1][3]
+                        start_a = Sym("after-%s:%s" % (prev_ls.tag, ra)) if _modified(prev_ls, ra) else segs[si - 1][1].get(ra)
+                        start_l = Sym("after-%s:%s" % (prev_ls.tag, rl)) if _modified(prev_ls, rl) else segs[si - 1][1].get(rl)
+                        if ls is None:
+                            # last segment: what is emitted must be exactly what is left
+                            if not _zero(add(sa, start_a, -1)):
+                                problems.append(("address", path + cdesc, "after the loops %s is left but %s is emitted" % (show(start_a), show(sa))))
+                            if not _zero(add(sl, start_l, -1)):
+                                problems.append(("line", path + cdesc, "after the loops %s is left but %s is emitted" % (show(start_l), show(sl))))
+                        else:
+                            if not _zero(add(add(sa, e_end.get(ra)), start_a, -1)):
+                                problems.append(("address", path + cdesc, "between loops: emitted %s, residual goes %s -> %s" % (show(sa), show(start_a), show(e_end.get(ra)))))
+                            if not _zero(add(add(sl, e_end.get(rl)), start_l, -1)):
+                                problems.append(("line", path + cdesc, "between loops: emitted %s, residual goes %s -> %s" % (show(sl), show(start_l), show(e_end.get(rl)))))
+                if ls is not None and ra is not None:
+                    # one iteration of the chunking loop keeps emitted + residual constant
+                    hb = Sym("%s:%s" % (ls.tag, acc))
+                    for g2, l2 in leaves(ls.out):
+                        if not isinstance(l2, (Fall, Cont)):
+                            continue
+                        for cond, term in _cases(l2.env[acc]):
+                            sa, sl = _sums(_pieces(term, hb))
+                            nchecks += 1
+                            ha = Sym("%s:%s" % (ls.tag, ra)) if _modified(ls, ra) else ls.pre.get(ra)
+                            hl = Sym("%s:%s" % (ls.tag, rl)) if _modified(ls, rl) else ls.pre.get(rl)
+                            da = add(add(sa, l2.env.get(ra)), ha, -1)
+                            dl = add(add(sl, l2.env.get(rl)), hl, -1)
+                            lname = "loop(%s)" % show(ls.cond)[:40]
+                            if not _zero(da):
+                                problems.append(("address", lname, "one iteration emits address bytes %s while %s goes %s -> %s" % (show(sa), ra, show(ha), show(l2.env.get(ra)))))
+                            if not _zero(dl):
+                                problems.append(("line", lname, "one iteration emits line bytes %s while %s goes %s -> %s" % (show(sl), rl, show(hl), show(l2.env.get(rl)))))
+        except StopIteration:
+            pass
+        except Unparsed as ex:
+            raise AnalysisError("%s: emission idiom outside the supported subset: %s" % (construct, ex))
+    seen = set()
+    for kind, pth, what in problems:
+        import re
+        key = re.sub(r"(after-)?loop\d+(\.\d+)?:", "", "conservation:%s:%s" % (kind, pth))
+        if key in seen:
+            continue
+        seen.add(key)
+        rep.ob("R8", construct, key[:150], False, expected="bytes emitted for an entry add up to the entry's offset / line advance", derived=what, where=where,
+               msg="%s bytes of the encoded table do not add up to the mapping's deltas (%s): every later entry decodes to a wrong %s" % (
+                   kind, what, "offset" if kind == "address" else "line"))
+    if not problems:
+        rep.ob("R8", construct, "conservation", True, derived="%d segment / iteration checks" % nchecks)
+    return nchecks
+
+
+def _modified(ls, name):
+    from ..sve import Cont, Fall, leaves
+    for g, l in leaves(ls.out):
+        if isinstance(l, (Fall, Cont)) and name in l.env and repr(l.env[name]) != repr(ls.pre.get(name)):
+            return True
+    return False
